@@ -102,7 +102,8 @@ PATHS = ['/api/users', '/api/v2/users', '/api/v10/users/x/y', '/api/v/users', '/
          '/f/u/v', '/a/q.json', '/s/', '/st/f.txt', '/a/f.txt', '/f.txt', '/x/f.txt', '/a/x/f.txt', '/f', '/q/x',
          '/aXb', '/f/f.txt', '/a/q\n']
 FILES = ['f.txt', 'x/f.txt']
-SUFFIXES = [None, None, None, 'items', '', 'zzz']
+SUFFIXES = [None, None, None, 'items', '', 'zzz', 'byID', 'byid', 'V2', 'v2', 'a_1', 'Items']
+SUFFIX_VARIANTS = ['items', 'byID', 'byid', 'V2', 'v2', 'a_1', 'Items']
 
 
 def make_responder(kind, ident, attr, asgi):
@@ -193,8 +194,9 @@ def gen_app(rng, methods):
             for m in impl:
                 if rng.random() < 0.7:
                     attrs.append(['on_' + m.lower(), 1])
-                if rng.random() < 0.5:
-                    attrs.append(['on_' + m.lower() + '_items', 1])
+                for sv in SUFFIX_VARIANTS:           # incl. names differing only in the case of the suffix
+                    if rng.random() < (0.5 if sv == 'items' else 0.25):
+                        attrs.append(['on_' + m.lower() + '_' + sv, 1])
             if rng.random() < 0.3:
                 attrs.append(['on_patch', 0])           # present but not callable
             if rng.random() < 0.2:
@@ -215,14 +217,16 @@ def gen_app(rng, methods):
     return sbs, ops
 
 
-def build_real(falcon, asgi, sbs, ops, tmp):
+def build_real(falcon, asgi, sbs, ops, tmp, between=None):
     import falcon.asgi
     from falcon.routing import compiled
     from falcon.routing.util import SuffixedMethodNotFoundError
     App = falcon.asgi.App if asgi else falcon.App
     app = App(sink_before_static_route=sbs, middleware=[ARsrcMw() if asgi else RsrcMw()])
     results, static_info, objs = [], {}, {}
-    for o in ops:
+    for k, o in enumerate(ops):
+        if between is not None:
+            between(k, app, results, static_info)
         try:
             if o[0] == 0:
                 oid = o[6] if len(o) > 6 else o[2]
@@ -256,6 +260,8 @@ def build_real(falcon, asgi, sbs, ops, tmp):
             results.append(3)
         except ValueError:
             results.append(1)
+    if between is not None:
+        between(len(ops), app, results, static_info)
     return app, results, static_info
 
 
@@ -350,70 +356,105 @@ def obs_to_wire(obs, predicted, predicted_obs, obj_of=None):
     return [7]
 
 
-def check_app(ctx, model, falcon, testing, sbs, ops, methods, paths, tmp, tag='gen'):
+def query_and_judge(ctx, model, testing, app, asgi, sbs, ops, results, static_info, pairs, tag):
+    """serve the (method, path) pairs on the real app as it is now and judge every observation
+    against the model of the registration history `ops` so far"""
+    clean = True
+    client = testing.TestClient(app)
+    obs, rsrc_ran = [], []
+    wire_ops = [o[:5] if o[0] == 0 else o[:3] if o[0] == 1 else o for o in ops]
+    truthy = {o[2]: (len(o) <= 5 or o[5] == 0) for o in ops if o[0] == 0}
+    with warnings.catch_warnings():
+        warnings.simplefilter('ignore')      # wsgiref.validate warns about non-standard methods
+        for m, p in pairs:
+            r = client.simulate_request(m, p)
+            ob, ran = observe(r)
+            obs.append(ob)
+            rsrc_ran.append(ran)
+    # first pass: the model's predictions; second pass: the oracle on the observations
+    qs = [[m, p, [7]] for m, p in pairs]
+    out = model.run([0, sbs, wire_ops, qs])
+    preds = [o[0] for o in out[1]]
+    obj_of = {o[2]: (o[6] if len(o) > 6 else o[2]) for o in ops if o[0] == 0}
+    exps = [expected_obs(o, q[0], q[1], static_info, obj_of) for o, q in zip(preds, qs)]
+    qs2 = [[q[0], q[1], obs_to_wire(ob, pr, ex, obj_of)] for q, ob, pr, ex in zip(qs, obs, preds, exps)]
+    out2 = model.run([0, sbs, wire_ops, qs2])
+    detail0 = {'asgi': asgi, 'sbs': sbs, 'ops': ops, 'tag': tag}
+    if out[0] != list(results):
+        i = next(i for i, (a, b) in enumerate(zip(out[0], results)) if a != b)
+        ctx.violation('correspondence-broken',
+                      dict(detail0, broken='C02.registration_corr', op=ops[i], impl=results[i], model=out[0][i]),
+                      found_input=False, key='corr-reg')
+        return False, exps
+    for q, ob, pr, ex, o2, ran in zip(qs, obs, preds, exps, out2[1], rsrc_ran):
+        verdict, spec_fb = o2[1], o2[2]
+        # process_resource middleware: the code runs it iff a route matched and the resource
+        # object is truthy (`if resource:` in __call__) - outside C02's statement, modelled
+        # as the code does
+        want_ran = bool(o2[3]) and truthy.get(o2[3][0], True)
+        if ran != want_ran:
+            ctx.violation('correspondence-broken',
+                          dict(detail0, broken='C02.process_resource_gating', method=q[0], path=q[1],
+                               impl_ran=ran, expected_ran=want_ran), found_input=False, key='rsrc')
+            clean = False
+        detail = dict(detail0, method=q[0], path=q[1], impl=list(ob), model=list(ex))
+        if verdict != 1:
+            ctx.violation('dispatch-differs', detail, key='dispatch-%s-%s' % (ob[0], ex[0]))
+            clean = False
+        elif ob != ex:
+            ctx.violation('correspondence-broken', dict(detail, broken='C02.observation_encoding'),
+                          found_input=False, key='enc')
+            clean = False
+        # C02_dispatch_fallback_spec, executed: no route matched => the recency spec
+        if spec_fb != [3] and q[0] != 'WEBSOCKET' and spec_fb != pr:
+            ctx.violation('model-differs-from-spec', dict(detail, broken='C02.dispatch_fallback_spec',
+                                                           spec=spec_fb, model_outcome=pr),
+                          found_input=False, key='spec')
+            clean = False
+        ctx.count(ex[0])
+    return clean, exps
+
+
+def check_app(ctx, model, falcon, testing, sbs, ops, methods, paths, tmp, tag='gen', interleave=0):
+    """interleave = n > 0: the app is NOT finished before the first request: n requests are served
+    before the first registration and after every add_route / add_sink / add_static_route, each judged
+    against the model of the registration history so far (replay: the recorded `served` pairs)"""
     clean = True
     for asgi in (False, True):
-        app, results, static_info = build_real(falcon, asgi, sbs, ops, tmp)
-        client = testing.TestClient(app)
-        obs, rsrc_ran = [], []
-        wire_ops = [o[:5] if o[0] == 0 else o[:3] if o[0] == 1 else o for o in ops]
-        truthy = {o[2]: (len(o) <= 5 or o[5] == 0) for o in ops if o[0] == 0}
-        with warnings.catch_warnings():
-            warnings.simplefilter('ignore')      # wsgiref.validate warns about non-standard methods
-            for m in methods:
-                for p in paths:
-                    r = client.simulate_request(m, p)
-                    ob, ran = observe(r)
-                    obs.append(ob)
-                    rsrc_ran.append(ran)
-        # first pass: the model's predictions; second pass: the oracle on the observations
-        qs = [[m, p, [7]] for m in methods for p in paths]
-        out = model.run([0, sbs, wire_ops, qs])
-        preds = [o[0] for o in out[1]]
-        obj_of = {o[2]: (o[6] if len(o) > 6 else o[2]) for o in ops if o[0] == 0}
-        exps = [expected_obs(o, q[0], q[1], static_info, obj_of) for o, q in zip(preds, qs)]
-        qs2 = [[q[0], q[1], obs_to_wire(ob, pr, ex, obj_of)] for q, ob, pr, ex in zip(qs, obs, preds, exps)]
-        out2 = model.run([0, sbs, wire_ops, qs2])
-        detail0 = {'asgi': asgi, 'sbs': sbs, 'ops': ops, 'tag': tag}
-        if out[0] != results:
-            i = next(i for i, (a, b) in enumerate(zip(out[0], results)) if a != b)
-            ctx.violation('correspondence-broken',
-                          dict(detail0, broken='C02.registration_corr', op=ops[i], impl=results[i], model=out[0][i]),
-                          found_input=False, key='corr-reg')
-            clean = False
+        if not interleave:
+            app, results, static_info = build_real(falcon, asgi, sbs, ops, tmp)
+            pairs = [(m, p) for m in methods for p in paths]
+            ok, exps = query_and_judge(ctx, model, testing, app, asgi, sbs, ops, results, static_info, pairs, tag)
+            clean = clean and ok
+            ctx.note_case((tag, asgi, sbs, json.dumps(ops)),
+                          any(e[0] in ('route', 'sink', 'static-file', 'static-fallback') for e in exps))
             continue
-        for q, ob, pr, ex, o2, ran in zip(qs, obs, preds, exps, out2[1], rsrc_ran):
-            verdict, spec_fb = o2[1], o2[2]
-            # process_resource middleware: the code runs it iff a route matched and the resource
-            # object is truthy (`if resource:` in __call__) - outside C02's statement, modelled
-            # as the code does
-            want_ran = bool(o2[3]) and truthy.get(o2[3][0], True)
-            if ran != want_ran:
-                ctx.violation('correspondence-broken',
-                              dict(detail0, broken='C02.process_resource_gating', method=q[0], path=q[1],
-                                   impl_ran=ran, expected_ran=want_ran), found_input=False, key='rsrc')
-                clean = False
-            detail = dict(detail0, method=q[0], path=q[1], impl=list(ob), model=list(ex))
-            if verdict != 1:
-                ctx.violation('dispatch-differs', detail, key='dispatch-%s-%s' % (ob[0], ex[0]))
-                clean = False
-            elif ob != ex:
-                ctx.violation('correspondence-broken', dict(detail, broken='C02.observation_encoding'),
-                              found_input=False, key='enc')
-                clean = False
-            # C02_dispatch_fallback_spec, executed: no route matched => the recency spec
-            if spec_fb != [3] and q[0] != 'WEBSOCKET' and spec_fb != pr:
-                ctx.violation('model-differs-from-spec', dict(detail, broken='C02.dispatch_fallback_spec',
-                                                               spec=spec_fb, model_outcome=pr),
-                              found_input=False, key='spec')
-                clean = False
-            ctx.count(ex[0])
-        ctx.note_case((tag, asgi, sbs, json.dumps(ops)), any(e[0] in ('route', 'sink', 'static-file', 'static-fallback')
-                                                                 for e in exps))
+        allpairs = [(m, p) for m in methods for p in paths]
+        state = {'ok': True, 'hit': False}
+
+        def between(k, app, results, static_info):
+            if not state['ok']:
+                return
+            pairs = [allpairs[(7 * k + 13 * j) % len(allpairs)] for j in range(interleave)]
+            # always include requests that match no route (the fallback tables are consulted)
+            pairs += [('GET', '/zz'), ('GET', '/s/f.txt'), ('POST', '/a/q')]
+            ok, exps = query_and_judge(ctx, model, testing, app, asgi, sbs, ops[:k], results, static_info, pairs,
+                                       tag + '-after-%d-registrations' % k)
+            state['ok'] = ok
+            state['hit'] = state['hit'] or any(e[0] in ('route', 'sink', 'static-file', 'static-fallback') for e in exps)
+        build_real(falcon, asgi, sbs, ops, tmp, between=between)
+        clean = clean and state['ok']
+        ctx.note_case((tag, 'interleaved', asgi, sbs, json.dumps(ops)), state['hit'])
+        ctx.count('interleaved-apps')
     return clean
 
 
 API = SINK_PATS[10]
+INTERLEAVED_APPS = [
+    (True, [[2, 0, '/s', 0], [2, 1, '/zz', 1], [1, 2, lit('/s'), False], [2, 3, '/s/x', 0]]),
+    (False, [[1, 0, lit('/zz'), False], [2, 1, '/s', 0], [2, 2, '/zz', 0], [0, '/s/x', 0, [['on_get', 1]], [], 0, 0], [2, 3, '/s', 1]]),
+    (True, [[2, 0, '/', 0], [0, '/a/{x}', 0, [['on_post', 1]], [], 0, 0], [2, 1, '/a', 1]]),
+]
 FIXED_APPS = [
     # LIFO among sinks, sink vs static order, route masks both
     (True, [[1, 0, lit('/s'), False], [1, 1, lit('/s'), False], [2, 2, '/s', 0],
@@ -448,6 +489,12 @@ FIXED_APPS = [
              [0, '/a', 2, [['on_post', 1], ['on_post_items', 1]], ['items'], 0, 1], [0, '/a', 3, [['on_get', 1]], [], 0, 0]]),
     (True, [[0, '/a', 0, [['on_get', 1], ['on_get_items', 1]], ['items'], 0, 0], [0, '/a/b', 1, [['on_get', 1], ['on_get_items', 1]], [], 0, 0],
             [0, '/a', 2, [['on_get', 1], ['on_get_items', 1]], ['zzz'], 0, 0], [0, '/a/b', 3, [['on_get', 1], ['on_get_items', 1]], ['items'], 0, 0]]),
+    # suffixes are case-sensitive: on_get_byID and on_get_byid are different responders
+    (True, [[0, '/a', 0, [['on_get_byID', 1], ['on_get_byid', 1], ['on_post_byid', 1], ['on_put_V2', 1]], ['byID'], 0, 0],
+            [0, '/a/b', 1, [['on_get_byID', 1], ['on_get_byid', 1], ['on_post_byid', 1], ['on_put_V2', 1]], ['byid'], 0, 0],
+            [0, '/a/{x}', 2, [['on_get_byID', 1], ['on_get_byid', 1], ['on_post_byid', 1], ['on_put_V2', 1]], ['V2'], 0, 0],
+            [0, '/s', 3, [['on_get_byID', 1], ['on_get_byid', 1], ['on_post_byid', 1], ['on_put_V2', 1]], ['v2'], 0, 0],
+            [0, '/s/x', 4, [['on_get_a_1', 1], ['on_get_A_1', 1]], ['A_1'], 0, 4]]),
     # named groups that do not take part arrive as None, for explicit-parameter and **kwargs sinks
     (True, [[1, 0, API, True], [1, 1, SINK_PATS[11], True], [1, 2, SINK_PATS[12], False]]),
     (False, [[1, 0, API, False], [1, 1, SINK_PATS[13], True], [1, 2, SINK_PATS[14], True]]),
@@ -509,6 +556,14 @@ def main(ctx):
             replay(ctx, o)
         for sbs, ops in FIXED_APPS:
             check_app(ctx, model, falcon, testing, sbs, ops, base_methods + ['PROPFIND', 'PUT'], PATHS, tmp, tag='fixed')
+        # registrations AFTER the first request: requests interleaved with add_route / add_sink / add_static_route
+        for sbs, ops in FIXED_APPS + INTERLEAVED_APPS:
+            check_app(ctx, model, falcon, testing, sbs, ops, base_methods, PATHS, tmp, tag='fixed-il', interleave=6)
+        for i in range(30 if ctx.tier == 'quick' else 300):
+            if ctx.time_left(60 if ctx.tier == 'quick' else 400) < 0:
+                break
+            sbs, ops = gen_app(ctx.rng, allm)
+            check_app(ctx, model, falcon, testing, sbs, ops, base_methods, PATHS, tmp, tag='gen-il', interleave=6)
         n_apps = 150 if ctx.tier == 'quick' else 1500
         budget = 110 if ctx.tier == 'quick' else 900
         for i in range(n_apps):
@@ -536,6 +591,11 @@ def replay(ctx, obj):
     try:
         methods = [obj['method']] if 'method' in obj else ['GET', 'OPTIONS', 'POST']
         paths = [obj['path']] if 'path' in obj else PATHS
-        check_app(ctx, model, falcon, testing, obj['sbs'], obj['ops'], methods, paths, tmp, tag='replay')
+        if 'after-' in str(obj.get('tag', '')):
+            check_app(ctx, model, falcon, testing, obj['sbs'], obj['ops'], ['GET', 'OPTIONS', 'POST', 'DELETE', 'HEAD', 'WEBSOCKET', 'FOO'],
+                      PATHS, tmp, tag='replay-il', interleave=6)
+            check_app(ctx, model, falcon, testing, obj['sbs'], obj['ops'], methods, paths, tmp, tag='replay')
+        else:
+            check_app(ctx, model, falcon, testing, obj['sbs'], obj['ops'], methods, paths, tmp, tag='replay')
     finally:
         shutil.rmtree(tmp, True)
